@@ -8,7 +8,7 @@ from harness import core
 def setup():
     ok, msg = core.translate()
     print("translate:", msg)
-    okb, log, failed = core.lake_build()
+    okb, log, failed = core.lake_build(("ShapeVerif", "driver", "gendriver"))
     print(log[-3000:])
     if not okb:
         print("setup: lake build failed", failed)
@@ -39,6 +39,14 @@ def proof_side(pid, thorough):
     if not okb:
         res["build_log_tail"] = log[-4000:]
         res["broken"] += [f"lake build: {m}" for m in failed] or ["lake build failed"]
+    # optional: the driver of the regenerated definitions (translator fidelity test); not building is not an alarm by itself
+    okg, _, _ = core.lake_build(("gendriver",))
+    res["gendriver_ok"] = okg
+    if not okg:
+        try:
+            os.remove(os.path.join(core.LEAN, ".lake", "build", "bin", "gendriver"))
+        except OSError:
+            pass
     hits = core.grep_forbidden()
     if hits:
         res["broken"] += [f"forbidden construct: {h}" for h in hits]
